@@ -294,7 +294,9 @@ def run(ctx):
     # column changing later) shows in the fault-free run
     ref_only = [({"mode": "Diffuse", "n": 60, "limb_deg": 1e-4, "cone_deg": 0.05}, "lowbeta.fits"),
                 # staged writing when no trajectory survives: the geometry stage still completes
-                ({"mode": "Target", "n": 300, "never_occulted": True}, "empty.fits"), ({"mode": "Diffuse", "n": 0}, "empty0.fits")]
+                ({"mode": "Target", "n": 300, "never_occulted": True}, "empty.fits"), ({"mode": "Diffuse", "n": 0}, "empty0.fits"),
+                # staged writing together with every diagnostic plot (`run -w --plotall`): the plots are observers
+                ({"mode": "Diffuse", "n": 40, "plots": True}, "plots.fits"), ({"mode": "Target", "n": 1200, "plots": True}, "plots_t.fits")]
     if T:
         configs += [
             ({"mode": "Diffuse", "n": 40, "radio": False}, "results.out"),
